@@ -444,10 +444,10 @@ class InputFile:
             validations = {k: v for k, v in validations.items() if k != "one_of"}
             self.validators.validate(key, value, validations)
 
-        self.data[key] = value
-
         if key == "geoh5":
             self.geoh5 = value
+
+        self.data[key] = value
 
         self.update_ui_values({key: value})
 
